@@ -14,9 +14,9 @@ import (
 type recordCase struct {
 	Kind   string `json:"kind"` // "record_codec"
 	Rec    *mRec  `json:"rec"`
-	From   int    `json:"from"`   // marshalled rows [From,To) of Rec (a slice when not the whole record)
+	From   int    `json:"from"` // marshalled rows [From,To) of Rec (a slice when not the whole record)
 	To     int    `json:"to"`
-	Prefix int    `json:"prefix"` // bytes already in the destination buffer
+	Prefix int    `json:"prefix"`          // bytes already in the destination buffer
 	Reuse  *mRec  `json:"reuse,omitempty"` // record previously decoded into the destination
 }
 
